@@ -335,6 +335,39 @@ def check(tier: str) -> Result:
     # ---- R5c: extent-named parameters of generator helpers receive the extent of their own axis (a transposed grid
     # has the shape (num_cols, num_rows) while the spec announces (num_rows, num_cols)): borrowed from C07.R1
     n_c07 = borrow(res, "c07", {"C07.R1": "C01.R5c"}, only_if=lambda ob: "argument for parameter" in ob.construct or "extent" in ob.construct)
+    # ---- R3c: a node index that is advanced every step and declared with the bounds [0, num_nodes - 1] is reduced modulo
+    # num_nodes: GraphColoring colours node after node and a full episode has exactly num_nodes steps, so the un-wrapped
+    # successor index of the LAST step is num_nodes (frozen instance, confirmed by reading; two independent seeds removed the wrap)
+    from ..normal import linear as _lin
+    from ..shapes import canon as _canon
+    from ..terms import uncopy as _unc
+    for ea in analyses(tree):
+        if ea.cls.name != "GraphColoring":
+            continue
+        vfg = ea.vfg
+        site, fn = env_site(ea, "step")
+        old = vfg.mk_attr(ea.state, "current_node_index")
+        for o in observation_leaves(ea, ea.step_ts):
+            if o.kind != "construct":
+                continue
+            v = dict(flat_fields(vfg, o)).get("current_node_index")
+            if v is None:
+                continue
+            v0 = _unc(strip_cast(v))
+            verdict, why = None, f"value {txt(v0, 4, 80)} (form not compared)"
+            wrapped = (v0.kind == "bin" and v0.args[0] == "%") or ext_name(v0) in ("jax.numpy.mod", "jax.numpy.remainder")
+            if wrapped:
+                mod = strip_cast(v0.args[2] if v0.kind == "bin" else v0.args[1][1])
+                same = mod.kind == "attr" and _canon(vfg, mod.args[1]) == _canon(vfg, "num_nodes")
+                verdict, why = (True, "reduced modulo num_nodes") if same else (None, f"reduced modulo {txt(mod, 2, 40)} (not compared)")
+            elif ext_name(v0) in ("jax.numpy.minimum", "jax.numpy.clip"):
+                verdict, why = None, "clipped (bound not compared)"
+            else:
+                b, k = _lin(v0)
+                if b is old and k is not None and k >= 1:
+                    verdict, why = False, f"the emitted index is state.current_node_index + {k} without wrap: after the last node it equals num_nodes, above the declared maximum num_nodes - 1"
+            res.add("C01.R3c", site, fn, "the advancing node index stays inside its declared range [0, num_nodes - 1]", verdict, why)
+            break
     res.analysed = {"environments": len(analyses(tree)), "nested_spec_nodes": n_specs, "observation_leaves": n_leaves,
                     "literal_leaves_compared": n_lit, "sampled_leaves_compared": n_samp, "axis_bound_sites": n_axis, "dtype_categories_compared": n_dt, "leaf_shapes_compared": n_shape}
     if n_specs < 31:
